@@ -1,3 +1,138 @@
 package main
 
-func prisonRun() {}
+import (
+	"encoding/json"
+	"fmt"
+	"sync"
+	"time"
+
+	"github.com/bfenetworks/bfe/bfe_module"
+	"github.com/bfenetworks/bfe/bfe_modules/mod_prison"
+
+	"verifharness/vh"
+)
+
+// One C53 case: an arrival schedule in ticks (specs/Mod/GenPrison.tla or a seeded driver)
+// and the real periods to play it with.
+type prisonCase struct {
+	ID     int    `json:"id"`
+	Th     int    `json:"th"`
+	Kind   string `json:"kind"`    // "scaled": periods set in microseconds through the overlay setter; "real": whole seconds from the rule file
+	CpUs   int64  `json:"cp_us"`   // CheckPeriod
+	SpUs   int64  `json:"sp_us"`   // StayPeriod
+	TickUs int64  `json:"tick_us"` // real length of one schedule tick
+	Arr    []struct {
+		K int `json:"k"`
+		T int `json:"t"`
+	} `json:"arr"`
+}
+
+type prisonEv struct {
+	Ev   string `json:"ev"`
+	Cid  int    `json:"cid"`
+	Th   int    `json:"th"`
+	P    int64  `json:"p"`
+	J    int64  `json:"j"`
+	K    int    `json:"k"`
+	Lo   int64  `json:"lo"`
+	Hi   int64  `json:"hi"`
+	Deny bool   `json:"deny"`
+	Info string `json:"info,omitempty"`
+}
+
+func prisonRun() {
+	var cases []*prisonCase
+	vh.EachCase(func(line []byte) {
+		c := new(prisonCase)
+		if err := json.Unmarshal(line, c); err != nil {
+			vh.Emit(map[string]interface{}{"_bad_case": err.Error()})
+			return
+		}
+		cases = append(cases, c)
+	})
+	if len(cases) == 0 {
+		return
+	}
+	// one product (one rule with its own dictionaries) per case, all in one rule file
+	conf := map[string]interface{}{}
+	for _, c := range cases {
+		cp, sp := int64(1), int64(1)
+		if c.Kind == "real" {
+			cp, sp = c.CpUs/1000000, c.SpUs/1000000
+		}
+		conf[fmt.Sprintf("c%d", c.ID)] = []interface{}{map[string]interface{}{
+			"Name": fmt.Sprintf("r%d", c.ID), "Cond": "default_t()",
+			"AccessSignConf": map[string]interface{}{"Header": []string{"X-Key"}},
+			"Action":         map[string]interface{}{"Cmd": "CLOSE", "Params": []string{}},
+			"CheckPeriod":    cp, "StayPeriod": sp, "Threshold": c.Th,
+			"AccessDictSize": 64, "PrisonDictSize": 64,
+		}}
+	}
+	m := mod_prison.NewModulePrison()
+	mi, err := newMod(m, "[basic]\nProductRulePath = mod_prison/prison.data\n", "mod_prison/prison.data", emptyRules)
+	if err != nil {
+		panic("harness: mod_prison init: " + err.Error())
+	}
+	defer mi.close()
+	if err := mi.reload(mustJSON(map[string]interface{}{"Version": "v1", "Config": conf})); err != nil {
+		panic("harness: mod_prison refused the rule file: " + err.Error())
+	}
+	for _, c := range cases {
+		prod, name := fmt.Sprintf("c%d", c.ID), fmt.Sprintf("r%d", c.ID)
+		if c.Kind == "scaled" {
+			if !m.VerifSetPeriods(prod, name, c.CpUs*1000, c.SpUs*1000) {
+				panic("harness: rule not found after load: " + name)
+			}
+		}
+		// the periods the code will really use go into the trace
+		cpNs, spNs, ok := m.VerifPeriods(prod, name)
+		if !ok {
+			panic("harness: rule not found after load: " + name)
+		}
+		c.CpUs, c.SpUs = cpNs/1000, spNs/1000
+	}
+
+	out := make([][]prisonEv, len(cases))
+	var wg sync.WaitGroup
+	for i, c := range cases {
+		wg.Add(1)
+		go func(i int, c *prisonCase) {
+			defer wg.Done()
+			evs := []prisonEv{{Ev: "load", Cid: c.ID, Th: c.Th, P: c.CpUs, J: c.SpUs}}
+			prod := fmt.Sprintf("c%d", c.ID)
+			t0 := time.Now().Add(30*time.Millisecond + time.Duration(i%50)*time.Millisecond)
+			for _, a := range c.Arr {
+				req, err := mkReq("GET", "origin", "a.example.com", "/x", "", [][2]string{{"X-Key", fmt.Sprintf("k%d", a.K)}})
+				if err != nil {
+					panic("harness: " + err.Error())
+				}
+				req.Route.Product = prod
+				if d := time.Until(t0.Add(time.Duration(int64(a.T)*c.TickUs) * time.Microsecond)); d > 0 {
+					time.Sleep(d)
+				}
+				ev := prisonEv{Ev: "arr", Cid: c.ID, K: a.K}
+				var ret int
+				lo := time.Now()
+				p := vh.Guard(func() { ret, _ = mi.request(bfe_module.HandleFoundProduct, req) })
+				hi := time.Now()
+				// lo is rounded down, hi up: every clock reading of the code lies in [lo, hi]
+				ev.Lo = lo.Sub(t0).Microseconds() + 1000000
+				ev.Hi = (hi.Sub(t0) + time.Microsecond - 1).Microseconds() + 1000000
+				ev.Deny = ret == bfe_module.BfeHandlerClose
+				if p != "" {
+					ev.Info = p
+				} else if ret != bfe_module.BfeHandlerClose && ret != bfe_module.BfeHandlerGoOn {
+					ev.Info = fmt.Sprintf("unexpected handler result %d", ret)
+				}
+				evs = append(evs, ev)
+			}
+			out[i] = evs
+		}(i, c)
+	}
+	wg.Wait()
+	for _, evs := range out {
+		for _, e := range evs {
+			vh.Emit(e)
+		}
+	}
+}
